@@ -19,7 +19,7 @@ Pow10(k) == CASE k = 0 -> 1 [] k = 1 -> 10 [] k = 2 -> 100 [] k = 3 -> 1000
               [] k = 7 -> 10000000 [] k = 8 -> 100000000 [] k = 9 -> 1000000000
 
 GoodSp == {"plain", "t0", "lead0", "plus", "dot"}     \* spellings Decimal::from_str accepts
-BadSp  == {"bad_empty", "bad_word", "bad_exp", "bad_space"}
+BadSp  == {"bad_empty", "bad_word", "bad_exp", "bad_space", "bad_tspace"}     \* "", "abc", "2e0", " 2", "2 "
 
 Dec(n, sp)  == [n |-> n, sp |-> sp]
 DecOk(d)    == d.sp \in GoodSp
